@@ -11,6 +11,7 @@ import (
 	"github.com/internetarchive/Zeno/internal/pkg/log"
 	"github.com/internetarchive/Zeno/internal/pkg/reactor"
 	"github.com/internetarchive/Zeno/internal/pkg/stats"
+	"github.com/internetarchive/Zeno/internal/pkg/verifhook"
 	"github.com/internetarchive/Zeno/pkg/models"
 )
 
@@ -87,6 +88,9 @@ func (f *finisher) worker(workerID string) {
 	controlChans := pause.Subscribe()
 	defer pause.Unsubscribe(controlChans)
 
+	verifhook.At("fin.start", workerID)
+	defer verifhook.At("fin.exit", workerID)
+
 	for {
 		select {
 		case <-f.ctx.Done():
@@ -94,7 +98,9 @@ func (f *finisher) worker(workerID string) {
 			return
 		case <-controlChans.PauseCh:
 			logger.Debug("received pause event")
+			verifhook.At("fin.paused", workerID)
 			controlChans.ResumeCh <- struct{}{}
+			verifhook.At("fin.woken", workerID)
 			logger.Debug("received resume event")
 		case seed, ok := <-f.inputCh:
 			if ok {
@@ -115,6 +121,7 @@ func (f *finisher) worker(workerID string) {
 				// If the seed is fresh, send it to the source
 				if seed.GetStatus() == models.ItemFresh {
 					logger.Debug("fresh seed received", "seed", seed)
+					verifhook.At("fin.produce", seed, workerID)
 					f.sourceProducedCh <- seed
 					continue
 				}
@@ -123,6 +130,7 @@ func (f *finisher) worker(workerID string) {
 				isComplete := seed.CompleteAndCheck()
 				if !isComplete {
 					logger.Debug("seed has fresh children", "seed", seed.GetShortID())
+					verifhook.At("fin.feedback", seed, workerID)
 					err := reactor.ReceiveFeedback(seed)
 					if err != nil && err != reactor.ErrReactorFrozen {
 						panic(err)
@@ -139,6 +147,7 @@ func (f *finisher) worker(workerID string) {
 
 				// Notify the source that the seed has been finished
 				// E.g.: to delete the seed in Crawl HQ
+				verifhook.At("fin.finish", seed, workerID)
 				if f.sourceFinishedCh != nil {
 					f.sourceFinishedCh <- seed
 				}
